@@ -33,7 +33,7 @@ NOT_DECIDED = ['every string comparison result', 'the search over trailing seque
 
 def run(ctx):
     for fn in (r1_never_after, r2_check_guard, r3_unmatched_typestate, r4_repr_fallback, r4b_which_text_is_compared,
-               r5_comment_only, r5b_code_predicate_on_stripped_lines, r6_summary_flags, r7_got_eval_fresh, r8_trailing_sequences, r9_got_want_roles, r10_single_statement_modes_are_cut):
+               r5_comment_only, r5b_code_predicate_on_stripped_lines, r6_summary_flags, r7_got_eval_fresh, r8_trailing_sequences, r9_got_want_roles, r10_single_statement_modes_are_cut, r11_value_kept_iff_eval_mode):
         ctx.rep.rule(fn, ctx)
 
 
@@ -592,6 +592,36 @@ def r8_trailing_sequences(ctx):
            'the explicit raise re-raises a caught got/want error' if ok_f else 'on failure check() raises %s' % sorted(etoks), anchor=CHECK)
 
 
+def r11_value_kept_iff_eval_mode(ctx):
+    """the value a want is compared with is the value of a part compiled in EVAL mode, and only that: at every place where the compiled code of a
+    part is run, the result is stored as the part's value exactly when the guards say `compile_mode == 'eval'` (also for code that is awaited)"""
+    rr = run_roles(ctx)
+    rep = ctx.rep
+    dom = ctx.dom(rr.g, rr.iter_entry, rr.cut)
+    n_rec = 0
+    for (n, c) in rr.exec_sites:
+        facts = [fa for fa in graph.guard_facts(dom, n) if fa.polarity in (True, False) and isinstance(fa.expr, ast.Compare) and len(fa.expr.ops) == 1 and
+                 isinstance(fa.expr.left, ast.Attribute) and fa.expr.left.attr == 'compile_mode']
+        mode_eval = None
+        for fa in facts:
+            cmpv = fa.expr.comparators[0]
+            if isinstance(fa.expr.ops[0], (ast.Eq, ast.NotEq)) and isinstance(cmpv, ast.Constant):
+                is_eq = isinstance(fa.expr.ops[0], ast.Eq) == fa.polarity
+                if cmpv.value == 'eval':
+                    mode_eval = is_eq
+                elif is_eq and mode_eval is None:
+                    mode_eval = False           # a positive test for another mode
+        if mode_eval is None:
+            continue            # run under a condition this rule does not read as a mode: no verdict for this place
+        n_rec += 1
+        keeps = isinstance(n.ast, ast.Assign) and any(is_name(t, 'got_eval') for t in n.ast.targets)
+        rep.ob('C02.R11', ctx.loc(rr.f, c), '%s | %s mode' % (ctx.src(n.ast, 70), 'eval' if mode_eval else 'statement'), keeps == mode_eval,
+               'the value is kept for the want exactly in eval mode' if keeps == mode_eval else
+               ('in eval mode the value of the expression is thrown away: a want that shows the value can never match' if mode_eval else
+                'the result of running STATEMENTS is kept as the value of the part (None): a want `None` passes although nothing was evaluated, and in eval mode nothing is kept'), anchor=RUN)
+    rep.floor('C02.R11', 'places where the code of a part is run under a recognised mode', n_rec, 2)
+
+
 def r9_got_want_roles(ctx):
     """got and want keep their sides at every call into the checker: same clause as C05.R12"""
     from . import c05
@@ -722,6 +752,7 @@ from ..selftest import fire, silent      # noqa: E402
 DE = 'xdoctest/doctest_example.py'
 CK = 'xdoctest/checker.py'
 VARIANTS = [
+    fire('awaited-value-kept-in-the-wrong-mode', 'C02.R11', (DE, "                                if part.compile_mode == 'eval':\n                                    got_eval = asyncio.run(eval(code, test_globals))\n", "                                if part.compile_mode == 'exec':\n                                    got_eval = asyncio.run(eval(code, test_globals))\n")),
     fire('blank-output-counts-as-no-output', 'C02.R4b', ('xdoctest/checker.py', "        if not got_stdout:\n", "        if not got_stdout.strip():\n")),
     fire('value-fallback-compares-stdout-again', 'C02.R4b', ('xdoctest/checker.py', "                try:\n                    got = repr(got_eval)\n                except Exception as ex:", "                try:\n                    pass\n                except Exception as ex:")),
     fire('value-fallback-not-compared', 'C02.R4b', ('xdoctest/checker.py', "                flag = check_output(got, want, runstate)\n                if not flag:\n                    got = got_stdout\n", "                if not flag:\n                    got = got_stdout\n")),
